@@ -191,10 +191,17 @@ def _match_groups(rows, key, groups):
 
 # ------------------------------------------------------------------------------------------------ listby / groupby
 
+KINF = [float('-inf'), float('inf'), 1, None]       # family 'inf': infinities are ordinary float keys (two distinct ones)
+
+
 def gen_tables(maxrows):
     for n in range(maxrows + 1):
         for xs in itertools.product(range(len(KEY6)), repeat=n):
             yield {'t': 'one', 'a': list(xs)}
+    for n in range(1, min(maxrows, 4) + 1):
+        for xs in itertools.product(range(len(KINF)), repeat=n):
+            if any(i < 2 for i in xs):
+                yield {'t': 'inf', 'a': list(xs)}
     for n in range(1, maxrows + 1):
         for xs in itertools.product(range(9), repeat=n):
             yield {'t': 'two', 'ab': list(xs)}
@@ -203,8 +210,8 @@ def gen_tables(maxrows):
 def check_regroup(case):
     from pyg_base import dictable
     out = Out()
-    if case['t'] == 'one':
-        a = [KEY6[i] for i in case['a']]
+    if case['t'] in ('one', 'inf'):
+        a = [(KEY6 if case['t'] == 'one' else KINF)[i] for i in case['a']]
         b = [B_FIX[i] for i in range(len(a))]
     else:
         a = [A3[i // 3] for i in case['ab']]
